@@ -245,6 +245,10 @@ func (cl *Cluster) WriteOnce(r *vk.Rand, lo, hi int64) {
 	if cl.AlignedOnly {
 		o = o / 8 * 8
 		l = (l + 7) / 8 * 8
+		hi = hi / 8 * 8
+		if o >= hi {
+			o = hi - 8
+		}
 	}
 	if o+l > hi {
 		l = hi - o
